@@ -160,6 +160,7 @@ package logqlmetric
 //@   ensures[gte] expr.Op == logql.OpGte   ==> ret1 == nil && (first(ret0(l, r)).Data == 1) == (l.Data >= r.Data) && (l.Data >= r.Data ==> second(ret0(l, r)))
 //@   ensures[lt]  expr.Op == logql.OpLt    ==> ret1 == nil && (first(ret0(l, r)).Data == 1) == (l.Data < r.Data) && (l.Data < r.Data ==> second(ret0(l, r)))
 //@   ensures[lte] expr.Op == logql.OpLte   ==> ret1 == nil && (first(ret0(l, r)).Data == 1) == (l.Data <= r.Data) && (l.Data <= r.Data ==> second(ret0(l, r)))
+//@   ensures[a-comparison-keeps-every-series-with-0-or-1] (expr.Op == logql.OpEq || expr.Op == logql.OpNotEq || expr.Op == logql.OpGt || expr.Op == logql.OpGte || expr.Op == logql.OpLt || expr.Op == logql.OpLte) ==> ret1 == nil && second(ret0(l, r)) && (first(ret0(l, r)).Data == 0 || first(ret0(l, r)).Data == 1)
 //@   ensures[logic-ops-rejected] (expr.Op == logql.OpAnd || expr.Op == logql.OpOr || expr.Op == logql.OpUnless) ==> ret1 != nil
 
 //@ func (*literalBinOpIterator).Next
